@@ -5,7 +5,7 @@ use affinitree::pwl::node::NodeState;
 use ndarray::{Array1, Array2};
 use serde_json::{json, Value};
 
-pub const WQ: f64 = 10000.0;
+pub const WQ: f64 = 100000.0;
 
 pub fn fx(v: f64, q: f64) -> (i64, bool) {
     let s = v * q;
@@ -71,7 +71,7 @@ pub fn tree_json<const K: usize>(t: &AffTree<K>, q: f64) -> Value {
                 NodeState::Indeterminate => ("I", vec![]),
                 NodeState::Infeasible => ("X", vec![]),
                 NodeState::Feasible => ("F", vec![]),
-                NodeState::FeasibleWitness(ws) => ("W", ws.iter().map(|p| { let mut e = true; arr1_json(p, WQ, &mut e) }).collect()),
+                NodeState::FeasibleWitness(ws) => ("W", ws.iter().map(|p| witness_json(p)).collect()),
             };
             json!({"i": i, "p": nd.parent.map(|p| p as i64).unwrap_or(-1),
                    "ch": nd.children.iter().map(|c| c.map(|c| c as i64).unwrap_or(-1)).collect::<Vec<_>>(),
@@ -80,6 +80,13 @@ pub fn tree_json<const K: usize>(t: &AffTree<K>, q: f64) -> Value {
         .collect();
     let root = crate::guarded(|| t.tree.get_root_idx() as i64).unwrap_or(-1);
     json!({"root": root, "dim": t.in_dim(), "k": K, "len": t.len(), "nodes": nodes})
+}
+
+/// a point logged at scale WQ; "ok": false when a coordinate is too large to be represented
+pub fn witness_json(p: &Array1<f64>) -> Value {
+    let mut ok = true;
+    let v: Vec<Value> = p.iter().map(|x| { let s = x * WQ; if !s.is_finite() || s.abs() > 2.0e8 { ok = false; json!(0) } else { json!(s.round() as i64) } }).collect();
+    json!({"p": v, "ok": ok})
 }
 
 pub fn point_from(v: &Value, den: f64) -> Array1<f64> {
